@@ -51,6 +51,9 @@ def states(tier, seed):
     for sym, which in itertools.product([False, True], ["viscous", "wave"]):
         for M, tc in itertools.product([0.3, 0.94], [0.05, 0.3]):
             st.append(dict(part="off", sym=sym, which=which, M=M, tc=tc))
+    # the option switches seen through the public groups (AeroPoint / AerostructPoint): all four on/off combinations
+    for sym, grp in itertools.product([False, True], ["AeroPoint", "AerostructPoint"]):
+        st.append(dict(part="offgroup", sym=sym, group=grp))
     for sym, sw, kl in itertools.product([False, True], [0.0, 30.0], [0.05, 0.7]):
         st.append(dict(part="res", sym=sym, sweep=sw, k_lam=kl, tier=tier))
     return st, 0
@@ -172,6 +175,40 @@ def part_wave(s):
                 viol.append(dict(sig=dict(oracle="cdw_nondecreasing_in_lift"), msg="CDw decreases with lift at M=%g" % M, measure=float(a - b)))
     av = np.concatenate(allv)
     return dict(viol=viol, nontrivial=bool(av.max() > 0), digest=digest_arrays(av), transitions=runs, validated=val)
+
+
+def part_offgroup(s):
+    m = wing(25.0, s["sym"], nx=3, ny=3 if s["sym"] else 5)
+    res = {}
+    for visc, wave in itertools.product([False, True], repeat=2):
+        if s["group"] == "AeroPoint":
+            surf = builders.aero_surface("w", m, s["sym"], with_viscous=visc, with_wave=wave, CD0=0.003, CL0=0.05)
+            p = builders.build_aero([surf], dict(v=248.0, alpha=3.0, rho=0.38, re=1.0e6, Mach_number=0.84))
+            pre = "ap.w_perf."
+        else:
+            surf = builders.struct_surface("w", m, s["sym"], "tube", with_viscous=visc, with_wave=wave, CD0=0.003, CL0=0.05)
+            p = builders.build_aerostruct([surf], dict(Mach_number=0.84, W0=2.0e3, v=248.0, rho=0.38, alpha=3.0, speed_of_sound=295.0, R=2.0e6, load_factor=1.0, re=1.0e6))
+            builders.tighten(p, nl="default", lin="default")
+            pre = "AS_point_0.w_perf."
+        p.run_model()
+        res[(visc, wave)] = {q: float(p[pre + q][0]) for q in ("CDv", "CDw", "CDi", "CD", "CL")}
+    viol, val = [], 0
+    for (visc, wave), r in res.items():
+        val += 3
+        if not visc and r["CDv"] != 0.0:
+            viol.append(dict(sig=dict(oracle="zero_when_off", which="viscous", group=s["group"]), msg="with_viscous=False, with_wave=%s: CDv = %.6e" % (wave, r["CDv"]), measure=abs(r["CDv"])))
+        if not wave and r["CDw"] != 0.0:
+            viol.append(dict(sig=dict(oracle="zero_when_off", which="wave", group=s["group"]), msg="with_wave=False, with_viscous=%s: CDw = %.6e" % (visc, r["CDw"]), measure=abs(r["CDw"])))
+        e = abs(r["CD"] - (r["CDi"] + r["CDv"] + r["CDw"] + 0.003))
+        if not e <= 1e-12:
+            viol.append(dict(sig=dict(oracle="cd_is_sum_of_parts", group=s["group"]), msg="CD differs from CDi + CDv + CDw + CD0 by %.2e (viscous %s, wave %s)" % (e, visc, wave), measure=float(e)))
+    # an estimate that is on does not depend on the other switch (aero-only: identical flow; coupled: same to solver tolerance)
+    tol = 0.0 if s["group"] == "AeroPoint" else 1e-6
+    for q, a, b in (("CDv", (True, False), (True, True)), ("CDw", (False, True), (True, True))):
+        val += 1
+        if not abs(res[a][q] - res[b][q]) <= tol * abs(res[b][q]):
+            viol.append(dict(sig=dict(oracle="independent_of_other_switch", which=q, group=s["group"]), msg="%s changes with the other option: %.10e vs %.10e" % (q, res[a][q], res[b][q]), measure=1.0))
+    return dict(viol=viol, nontrivial=bool(res[(True, True)]["CDv"] > 0 and res[(True, True)]["CDw"] > 0), digest=digest_arrays(np.array([list(r.values()) for r in res.values()])), transitions=4, validated=val)
 
 
 def part_off(s):
